@@ -122,25 +122,6 @@ def normF (o : Opts) (ord : Kvs → Kvs) (f : Nat) (v : JV) : JV := normG (omits
 
 def norm (o : Opts) (ord : Kvs → Kvs) (v : JV) : JV := normF o ord (depth v + 1) v
 
-mutual
-  /-- what `pretty.Writer` leaves out of an object. It is NOT what the options say (known finding
-  C04-pretty-omit): empty arrays and maps go under OmitNil alone, and so does a map all of whose
-  members go. -/
-  def skipP (omitNil omitEmpty : Bool) : JV → Bool
-    | .null => omitNil
-    | .str s => omitEmpty && s.isEmpty
-    | .arr xs => (omitNil || omitEmpty) && xs.isEmpty
-    | .obj kvs => (omitNil || omitEmpty) && skipPAll omitNil omitEmpty kvs
-    | _ => false
-  def skipPAll (omitNil omitEmpty : Bool) : Kvs → Bool
-    | [] => true
-    | (_, x) :: r => skipP omitNil omitEmpty x && skipPAll omitNil omitEmpty r
-end
-
-/-- the tree the text of `pretty.JSON` denotes: members always in ascending key order, `skipP` left out -/
-def normP (omitNil omitEmpty : Bool) (ord : Kvs → Kvs) (v : JV) : JV :=
-  normG (skipP omitNil omitEmpty) true ord (depth v + 1) v
-
 /-- a legitimate map iteration: the members, each once, in some order -/
 def IsOrder (ord : Kvs → Kvs) : Prop := ∀ l, (ord l).Perm l
 
